@@ -312,14 +312,14 @@ def _scenarios(ctx, g):
         out.append(("spurious-refusal", "killed-holder-scenario", "lock not available after its holder was killed: %s" % fc))
     c.reap()
     ctx.case("scenario:killed-holder")
-    # 2b. hand-off while a waiter is polling: A holds, B is INSIDE its acquire loop (1.5 s timeout) when A leaves,
+    # 2b. hand-off while a waiter is polling: A holds, B is INSIDE its acquire loop (long timeout) when A leaves,
     #     B then holds; C arriving while B is inside must be refused (the lock file must keep its identity)
     d = fresh("handoff")
     a = sched.spawn("A", d, g["inst"], ("hold",))
     a.grant(); a.advance()                          # A inside
-    b = sched.spawn("B", d, g["inst"], ("hold",), lock_timeout=1.5)
+    b = sched.spawn("B", d, g["inst"], ("hold",), lock_timeout=20.0)   # returns as soon as A leaves; long so that load cannot fake a refusal
     b.grant()                                       # B starts acquiring and polls; do not wait for it
-    time.sleep(0.15)
+    time.sleep(0.5)
     fa = run_to_end(a)                              # A leaves while B polls
     b.advance()                                     # B's acquire returns
     if b.pending and b.pending["op"] == "in_cs":
@@ -335,7 +335,7 @@ def _scenarios(ctx, g):
         fb = run_to_end(b)
     else:
         fb = b.fin or {"result": "died"}
-        out.append(("spurious-refusal", "handoff-scenario", "B waiting for A's lock (1.5 s timeout) did not get it after A left: %s" % fb))
+        out.append(("spurious-refusal", "handoff-scenario", "B waiting for A's lock (20 s timeout) did not get it after A left: %s" % fb))
     for k in (a, b):
         k.reap()
     ctx.case("scenario:handoff")
